@@ -78,7 +78,7 @@ def compare(src, filename):
 
 def module_strategy():
     from hypothesis import strategies as st
-    UNREAD = ['u%d' % i for i in range(12)]
+    UNREAD = ['u%d' % i for i in range(12)] + ['\u00e9t\u00e9', '\u0438\u043c\u044f', 'na\u00efve']      # non-ASCII identifiers: columns are UTF-8 byte offsets, as in ast
     READ = ['r%d' % i for i in range(4)]
     UNDER = ['_', '_u', '__v']
 
